@@ -309,7 +309,10 @@ impl<'a> G<'a> {
         self.step(&format!("wire parse {}", h));
         self.step(&format!("wire ipid {}", h));
         self.step(&format!("wire rfc {}", h));
-        let d = rd::unhex(&h)?;
+        let Some(d) = rd::unhex(&h) else {
+            self.ctx.oracle_fail("C06:harness-bug", &format!("pkt observation is not hex: {}", h));
+            return None;
+        };
         if keep {
             self.corpus.push(d.clone());
         }
@@ -1332,7 +1335,10 @@ pub fn run(ctx: &mut Ctx, eng: &mut dyn Engine, stash: std::rc::Rc<std::cell::Re
                 thousands of bytes); every packet re-serialised by the independent encoder at other legal C/S/O/H flags (policies max, tsi48-toi112, \
                 cci128, min-hflip, random per packet) and pushed through a fresh real Receiver: delivered objects + FDT instances identical to the \
                 baseline reception, flute's parse identical except lengths/offsets; a subsample goes through ops `rewidth` + `parse` against the Lean \
-                model; non-trivial = distinct (scheme, policy, TSI class, TOI max length, in-band FTI) with a complete baseline and >= 1 packet changed. \
+                model; TSI < 2^48 is covered at all three width classes (<= 16, 17..32, 33..48 bit) with both boundaries of each class + seeded random \
+                values by the lct family (min/max/random per class x all CCI/TOI classes), the pkt family (b1: min, max, random per class x 6 schemes) and \
+                real Sender sessions (rewidth: 16/32/48-bit TSI; sender-range tsi: 2^48-1 as in-range control, >= 2^48 observation only); \
+                non-trivial = distinct (scheme, policy, TSI class, TOI max length, in-band FTI) with a complete baseline and >= 1 packet changed. \
                 sender-range: a real Sender configured at / beyond the field ranges the C06 theorems assume (fdt_start_id around 2^20 and 2^32-1, TSI around \
                 2^48, Reed-Solomon B + parity beyond 8 / 16 bits, RaptorQ transfer length around 2^40): what it emits is read by rfcdec and must carry the \
                 configured values (or the sender must refuse the configuration)"
